@@ -7,7 +7,7 @@ seed=$1; prop=$2; shift 2
 cd /verif
 git -C /repo diff --quiet || { echo "/repo is dirty, refusing"; exit 3; }
 tmp=$(mktemp -d /tmp/evsave.XXXX); cp -r evidence/. $tmp/ 2>/dev/null
-git -C /repo apply seeded/$seed/patch.diff || { echo "patch does not apply"; exit 3; }
+git -C /repo apply /verif/seeded/$seed/patch.diff || { echo "patch does not apply"; exit 3; }
 out=seeded/$seed/check_${prop}.log
 ./check $prop "$@" > $out 2>&1; rc=$?
 git -C /repo checkout -- . ; git -C /repo clean -fdq
